@@ -135,6 +135,15 @@ def produced_kinds(an, prog):
                 for (bb, i, s) in block_aggs(b):
                     if s["rv"]["adt"].endswith("::FieldValue") and b.edge_dominates((blk, tb), bb):
                         kinds.add(s["rv"]["variant"])
+                if not kinds:
+                    # value built by a crate helper called from this arm (one level)
+                    for cb2, tt, c in b.calls():
+                        if c is not None and c.local and b.edge_dominates((blk, tb), cb2):
+                            hb = prog.body(c.path)
+                            if hb is not None:
+                                for (bb, i, s) in block_aggs(hb):
+                                    if s["rv"]["adt"].endswith("::FieldValue"):
+                                        kinds.add(s["rv"]["variant"])
                 out[name[0]] = kinds
             break
     # DataNumber::parse width table: (len, signed) -> variant
